@@ -276,6 +276,31 @@ for trial in range(2 * SCALE):
     if len(wrote) != 1 or wrote[0].group(1) != hashlib.sha256(written).hexdigest() or ref_decode(wrote[0].group(2).split()) != hashlib.sha256(written).digest():
         fail("ksrsigner", "logged digest of the written SKR is not the digest of the bytes on disk")
 
+# ------------------------------------------------------------------ 3b. the configuration file: the logged digest is that of the file's bytes, whatever their line ends
+import yaml as _yaml
+from kskm.common.config import get_config
+CFG_TEXT = _yaml.safe_dump({"ksk_policy": {"ttl": 172800, "publish_safety": "P10D"}, "request_policy": {"num_bundles": 9},
+                            "keys": {"ksk_current": {"description": "a KSK", "label": "Kcur", "algorithm": "RSASHA256", "rsa_size": 2048, "rsa_exponent": 65537,
+                                                     "valid_from": "2010-07-15T00:00:00+00:00"}}}, default_flow_style=False)
+FORMS = {"lf": CFG_TEXT.encode(), "crlf": CFG_TEXT.replace("\n", "\r\n").encode(), "mixed": CFG_TEXT.replace("\n", "\r\n", 3).encode(),
+         "utf8-bom": b"\xef\xbb\xbf" + CFG_TEXT.encode(), "comment-non-ascii": ("# ceremony 53 \u2013 K\u00f8benhavn\n" + CFG_TEXT).encode(),
+         "trailing-blank-crlf": CFG_TEXT.encode() + b"\r\n\r\n", "cr-only-comment": b"# one\r# two\r\n" + CFG_TEXT.encode(), "no-final-newline": CFG_TEXT.encode().rstrip(b"\n")}
+for form, data in FORMS.items():
+    path = os.path.join(tmpd, f"cfg-{form}.yaml")
+    with open(path, "wb") as f:
+        f.write(data)
+    r, lines = with_logs(lambda: vlib.run_impl(get_config, path))
+    count("config-file")
+    if r[0] != "ok":
+        continue            # whether such a file is a valid configuration is C16's business; nothing was shown as loaded
+    logged = [HEX.search(l) for l in lines if "Loaded configuration" in l and HEX.search(l)]
+    want = hashlib.sha256(data)
+    if len(logged) != 1 or logged[0].group(1) != want.hexdigest() or ref_decode(logged[0].group(2).split()) != want.digest():
+        fail("config", f"configuration file ({form}, {len(data)} octets): the logged SHA-256/words are not those of the file's bytes",
+             {"form": form, "logged": logged[0].group(1) if logged else None, "sha256_of_file": want.hexdigest()})
+    if r[1].ksk_policy.ttl != 172800 or r[1].request_policy.num_bundles != 9:
+        fail("config", f"configuration file ({form}) was not read as written")
+
 # ------------------------------------------------------------------ 4. stand-alone tool and helper functions print the same values
 def blob_with_digest(prefix):
     n = 0
